@@ -54,7 +54,14 @@ pub fn modes(args: &Value) -> Outcome {
     let mut req = Request::new(q);
     req = match rm { "disabled" => req.disable_introspection(), "only" => req.only_introspection(), _ => req };
     RAN.store(0, Ordering::SeqCst);
-    let resp = schema.execute(req).now_or_never().unwrap();
+    let resp = if let Some(first) = args["req_first"].as_str() {
+        // request-level plumbing through BatchRequest: the batch-wide setter (rm) applies to EVERY request, whatever mode it carried before (first)
+        let mut r0 = Request::new(q);
+        r0 = match first { "disabled" => r0.disable_introspection(), "only" => r0.only_introspection(), _ => r0 };
+        let batch = if args["single"] == true { BatchRequest::Single(r0) } else { BatchRequest::Batch(vec![r0]) };
+        let batch = match rm { "disabled" => batch.disable_introspection(), "only" => batch.introspection_only(), _ => batch };
+        match schema.execute_batch(batch).now_or_never().unwrap() { BatchResponse::Single(r) => r, BatchResponse::Batch(mut v) => v.remove(0) }
+    } else { schema.execute(req).now_or_never().unwrap() };
     let ran = RAN.load(Ordering::SeqCst);
     let data = resp.data.clone().into_json().unwrap().to_string();
     let disabled = sm == "disabled" || rm == "disabled";
@@ -84,6 +91,9 @@ pub fn inputs(_seed: u64, open: &[String]) -> impl Iterator<Item = Value> {
         if fed && skip_service && (s == "disabled" || r == "disabled") { continue; }
         out.push(json!({"schema_mode": s, "req_mode": r, "query": q, "federation": fed}));
     } } }
+    for first in ["enabled", "disabled", "only"] { for r in ["disabled", "only"] { for single in [false, true] { for q in ["{ value }", "{ __schema { queryType { name } } }", "{ __typename value }", "mutation { bump }"] {
+        out.push(json!({"schema_mode": "enabled", "req_first": first, "req_mode": r, "single": single, "query": q, "federation": false}));
+    } } } }
     let dqs = ["{ value }", "{ __typename value }", "{ __schema { queryType { name } } }", "{ __type(name: \"Query\") { kind } }", "{ _service { sdl } }", "{ _entities(representations: [{__typename: \"Item\", id: 1}]) { __typename } }"];
     for s in ms { for r in ms { for q in dqs {
         if q.contains("_entities") && (s == "only" || r == "only") && open.iter().any(|x| x == "C19-dynamic-entities-in-introspection-only") { continue; }
